@@ -24,7 +24,7 @@ import (
 	"verifharness/hxlib"
 )
 
-const ruleText = "every message is handed to Handle as a window into a larger buffer (spare capacity 0 / 1 / 32 / 512 / 4096 bytes, filled with plausible request bytes; per connection fixed or mixed) that nothing touches afterwards, the send function keeps the reply slices it is given, and `late` lines (mid-case, before and after the teardown, at the end of every scenario) read all of them again: they must equal the copies taken at send time and the protocol monitor is run on the late reading too. three case families. seq: 12–40 protocol messages on one connection against 1–2 databases out of 7 (hashmap, hashmap+shadow-delete, bbolt, bbolt+shadow-delete, badger, fstree, sinkhole) or an unregistered name, pre-seeded with records of every dsd format / secret / crown-jewel / expired flag and native struct records; get/query/sub/qsub/cancel/create/update/insert/delete with unique, reused, empty and binary operation IDs, valid and invalid query texts (incl. where clauses), JSON-object, non-object, non-JSON and too-short payloads; each message runs to quiescence and its canonical reply batch is compared with the Lean model. fuzz: raw random byte strings and byte/segment mutations of valid messages. conc: scenarios where messages are issued without waiting, with forced cancel-vs-query / cancel-vs-subscribe / write-vs-subscription schedules and random yields; the recorded request/reply trace is decided by the Lean trace acceptor and the Go monitor. A case is non-trivial if it contains at least one reply other than a malformed/unknown-method error; distinct by the hash of its lines."
+const ruleText = "every message is handed to Handle as a window into a larger buffer (spare capacity 0 / 1 / 32 / 512 / 4096 bytes, filled with plausible request bytes; per connection fixed or mixed) that nothing touches afterwards, the send function keeps the reply slices it is given, and `late` lines (mid-case, before and after the teardown, at the end of every scenario) read all of them again: they must equal the copies taken at send time and the protocol monitor is run on the late reading too. three case families. seq: 12–40 protocol messages on one connection against 1–2 databases out of 7 (hashmap, hashmap+shadow-delete, bbolt, bbolt+shadow-delete, badger, fstree, sinkhole) or an unregistered name, pre-seeded with records of every dsd format / secret / crown-jewel / expired flag and native struct records; get/query/sub/qsub/cancel/create/update/insert/delete with unique, reused, empty and binary operation IDs, valid and invalid query texts (incl. where clauses), JSON-object (compact and respelled: leading / trailing / inner whitespace incl. LF, TAB, CR, indented, \\u escapes, duplicate member names, empty object, nesting), non-object, non-JSON and too-short payloads; keys of get/delete, key prefixes and quoted operand strings of query/sub/qsub that contain the separator character; each message runs to quiescence and its canonical reply batch is compared with the Lean model. fuzz: raw random byte strings and byte/segment mutations of valid messages. conc: scenarios where messages are issued without waiting, with forced cancel-vs-query / cancel-vs-subscribe / write-vs-subscription schedules and random yields; the recorded request/reply trace is decided by the Lean trace acceptor and the Go monitor. A case is non-trivial if it contains at least one reply other than a malformed/unknown-method error; distinct by the hash of its lines."
 
 type shadowRec struct {
 	fm                     byte
@@ -105,7 +105,7 @@ func (g *caseGen) pick(xs ...string) string { return xs[g.rng.Intn(len(xs))] }
 
 // ---- JSON material --------------------------------------------------------------------------------
 
-var strVals = []string{"x", "", "a|b", "ü", "with space", `q"uote`, "new\nline", "0", "true"}
+var strVals = []string{"x", "", "a|b", "ü", "with space", `q"uote`, "new\nline", "0", "true", "x|y", "x", "a"}
 
 func (g *caseGen) jsonVal(kind byte, depth int) any {
 	switch kind {
@@ -159,13 +159,129 @@ func compact(v any) []byte {
 	return b
 }
 
+// spell renders a JSON object the way some client may write it: the same JSON value in another spelling (leading /
+// trailing / inner whitespace incl. newline, tab and CR, indented, \u escapes in names and strings, duplicate member
+// names, deeper nesting, the empty object). The content read back is compared as a JSON value by the monitor.
+func (g *caseGen) spell(m map[string]any) []byte {
+	c := compact(m)
+	ws := func() string { return g.pick(" ", "\n", "\t", "\r", "\r\n", "  ", " \n\t", "\n\n", "\t\t ") }
+	x := g.rng.Intn(10)
+	g.r.Count(fmt.Sprintf("payload:spelling:%s", []string{"lead-ws", "trail-ws", "both-ws", "indented", "inner-ws", "escapes", "dup-member", "empty-object", "nested", "lead-ws+inner"}[x]))
+	switch x {
+	case 0:
+		return []byte(ws() + string(c))
+	case 1:
+		return []byte(string(c) + ws())
+	case 2:
+		return []byte(ws() + string(c) + ws())
+	case 3:
+		b, err := json.MarshalIndent(m, g.pick("", "", " ", "\t"), g.pick("  ", "\t", " ", ""))
+		if err != nil {
+			return c
+		}
+		if g.rng.Intn(3) == 0 {
+			b = append([]byte(g.pick("\n", " ", "\r\n")), b...)
+		}
+		return b
+	case 4:
+		return g.innerWS(c, ws)
+	case 5:
+		return g.escapes(c)
+	case 6:
+		f := g.pick("dup", "dup", fieldNames[g.rng.Intn(len(fieldNames))])
+		a, b := compact(g.jsonVal("snb"[g.rng.Intn(3)], 1)), compact(g.jsonVal("snb"[g.rng.Intn(3)], 1))
+		sep := ","
+		if len(c) == 2 {
+			sep = ""
+		}
+		return []byte(string(c[:len(c)-1]) + sep + `"` + f + `":` + string(a) + `,"` + f + `":` + string(b) + "}")
+	case 7:
+		return []byte(g.pick("{}", "{ }", " {}", "{}\n", "{\n}", "\t{\r\n}\n", " { } "))
+	case 8:
+		d := map[string]any{"o1": map[string]any{"o1": map[string]any{"o1": map[string]any{}, "a1": []any{map[string]any{"s1": "x"}, []any{}}}, "s1": "x"}}
+		for k, v := range m {
+			if k != "o1" {
+				d[k] = v
+			}
+		}
+		if g.rng.Intn(2) == 0 {
+			return g.innerWS(compact(d), ws)
+		}
+		return compact(d)
+	default:
+		return append([]byte(ws()), g.innerWS(c, ws)...)
+	}
+}
+
+// innerWS inserts insignificant whitespace around the structural characters of a compact JSON text.
+func (g *caseGen) innerWS(c []byte, ws func() string) []byte {
+	var o []byte
+	inStr, esc := false, false
+	for _, ch := range c {
+		if inStr {
+			o = append(o, ch)
+			switch {
+			case esc:
+				esc = false
+			case ch == '\\':
+				esc = true
+			case ch == '"':
+				inStr = false
+			}
+			continue
+		}
+		if (ch == '}' || ch == ']') && g.rng.Intn(2) == 0 {
+			o = append(o, ws()...)
+		}
+		o = append(o, ch)
+		if ch == '"' {
+			inStr = true
+		}
+		if (ch == '{' || ch == '[' || ch == ',' || ch == ':') && g.rng.Intn(2) == 0 {
+			o = append(o, ws()...)
+		}
+	}
+	return o
+}
+
+// escapes respells characters inside the strings (member names and values) of a compact JSON text as \uXXXX / \/.
+func (g *caseGen) escapes(c []byte) []byte {
+	var o []byte
+	inStr, esc := false, false
+	for _, ch := range c {
+		switch {
+		case !inStr:
+			o = append(o, ch)
+			inStr = ch == '"'
+		case esc:
+			o = append(o, ch)
+			esc = false
+		case ch == '\\':
+			o = append(o, ch)
+			esc = true
+		case ch == '"':
+			o = append(o, ch)
+			inStr = false
+		case ch == '/' && g.rng.Intn(2) == 0:
+			o = append(o, '\\', '/')
+		case ch < 0x80 && g.rng.Intn(2) == 0:
+			o = append(o, fmt.Sprintf("\\u%04x", ch)...)
+		default:
+			o = append(o, ch)
+		}
+	}
+	return o
+}
+
 func isJSONObject(b []byte) bool { return gjson.ValidBytes(b) && gjson.ParseBytes(b).IsObject() }
 
 // payload returns format byte + body and whether the model comparison can follow it.
 func (g *caseGen) payload() []byte {
 	switch x := g.rng.Intn(20); {
-	case x < 12:
+	case x < 8:
 		return append([]byte{'J'}, compact(g.jsonObj(0))...)
+	case x < 12:
+		return append([]byte{'J'}, g.spell(g.jsonObj(0))...) // the same kind of object in another spelling
 	case x < 13:
 		return append([]byte{'J'}, []byte(g.pick("5", "[1,2]", `"str"`, "null", "garbage", "{", `{"a":`, "true"))...)
 	case x < 16:
@@ -247,6 +363,31 @@ func (g *caseGen) key() string {
 	}
 }
 
+// barKey: a key for get / delete that contains the separator character (everything after the method is the key):
+// an existing key followed by `|` and more, so that a request cut at that bar would address a record that is there.
+func (g *caseGen) barKey() string {
+	k := g.key()
+	if g.rng.Intn(8) > 0 {
+		return k
+	}
+	g.r.Count("key:with-separator")
+	switch g.rng.Intn(5) {
+	case 0:
+		return k + "|"
+	case 1:
+		return k + "|J{}"
+	case 2:
+		if i := strings.IndexByte(k, ':'); i >= 0 && i+2 < len(k) {
+			return k[:i+2] + "|" + k[i+2:]
+		}
+		return k + "||"
+	case 3:
+		return k + "|" + g.key()
+	default:
+		return k + "|x"
+	}
+}
+
 func (g *caseGen) freshKey() string {
 	db := g.dbs[g.rng.Intn(len(g.dbs))]
 	alpha := "abk01"
@@ -272,6 +413,11 @@ func (g *caseGen) queryText(valid bool) string {
 	if db == "fstr" {
 		pfx = g.pick("", "k") // every fstree key of a case starts with k: the backend's missing prefix filter (C02) stays invisible
 	}
+	if db != "fstr" && g.rng.Intn(14) == 0 {
+		// the separator character inside the key prefix: everything after the method is the query text
+		pfx = g.pick("k|", "k|a", "|", "k|k", pfx+"|x")
+		g.r.Count("query:prefix-with-separator")
+	}
 	q := "query " + db + ":" + pfx
 	if !valid {
 		return g.pick(db+":"+pfx, "", "query", "select * from x", q+" where", q+" where a", q+" where a ==", q+" limit x", q+" limit -1",
@@ -284,7 +430,8 @@ func (g *caseGen) queryText(valid bool) string {
 		g.r.Count("query:where-own-tree")
 	} else if !g.noWhere && g.rng.Intn(3) == 0 {
 		q += " where " + g.pick("s1 sameas x", "n1 > 3", "n1 < 100", "b1 is true", "s1 exists", "not s1 exists", "s2 contains a", "n2 == 5",
-			"(s1 sameas x or n1 > 3)", "s1 sameas x and b1 is true", "o1.s1 sameas x", "s1 startswith a", `s1 sameas "with space"`, "a1 exists", "n1 f> 2.5")
+			"(s1 sameas x or n1 > 3)", "s1 sameas x and b1 is true", "o1.s1 sameas x", "s1 startswith a", `s1 sameas "with space"`, "a1 exists", "n1 f> 2.5",
+			`s1 sameas "a|b"`, "s1 contains |", `s2 sameas "x|y" or s1 sameas "x|y"`, "s1 not sameas x|y")
 		g.r.Count("query:where")
 	}
 	if g.rng.Intn(5) == 0 {
@@ -593,7 +740,7 @@ func (g *caseGen) seqCase(emit func(hxlib.Case)) {
 		op := g.newOp()
 		switch x := g.rng.Intn(100); {
 		case x < 16:
-			g.msg(bars(op, "get", g.key()))
+			g.msg(bars(op, "get", g.barKey()))
 		case x < 28:
 			g.msg(bars(op, "query", g.queryText(g.rng.Intn(6) > 0)))
 		case x < 38:
@@ -621,7 +768,7 @@ func (g *caseGen) seqCase(emit func(hxlib.Case)) {
 				g.msg(append(bars(op, "update", g.key(), ""), g.payload()...))
 			}
 		case x < 92:
-			g.msg(bars(op, "delete", g.key()))
+			g.msg(bars(op, "delete", g.barKey()))
 		case x < 94:
 			g.msg(bars(op, g.pick("foo", "GET", "", "cancel", "subs", "put")+g.pick("", "x"), g.key()))
 		case x < 96:
@@ -645,6 +792,25 @@ func (g *caseGen) structKeys() (ks []string) {
 }
 
 func (g *caseGen) insertPayload() []byte {
+	p := g.insertPayload0()
+	if g.rng.Intn(5) == 0 && isJSONObject(p) {
+		g.r.Count("insert:payload-spelling")
+		ws := func() string { return g.pick(" ", "\n", "\t", "\r\n", "  ") }
+		switch g.rng.Intn(4) {
+		case 0:
+			return append([]byte(ws()), p...)
+		case 1:
+			return append(p, ws()...)
+		case 2:
+			return g.innerWS(p, ws)
+		default:
+			return g.escapes(p)
+		}
+	}
+	return p
+}
+
+func (g *caseGen) insertPayload0() []byte {
 	switch x := g.rng.Intn(12); {
 	case x < 5:
 		f := fieldNames[g.rng.Intn(len(fieldNames))]
@@ -673,7 +839,7 @@ func (g *caseGen) validMsg() []byte {
 	op := g.newOp()
 	switch g.rng.Intn(9) {
 	case 0:
-		return bars(op, "get", g.key())
+		return bars(op, "get", g.barKey())
 	case 1:
 		return bars(op, "query", g.queryText(true))
 	case 2:
@@ -689,7 +855,7 @@ func (g *caseGen) validMsg() []byte {
 	case 7:
 		return append(bars(op, "insert", g.key(), ""), g.insertPayload()...)
 	default:
-		return bars(op, "delete", g.key())
+		return bars(op, "delete", g.barKey())
 	}
 }
 
